@@ -143,6 +143,174 @@ theorem rtdr_items_side (env : Env) (segs : List SegX) (st : List (SItem α)) (h
     · exact rtdr_side env seg y hd (hl seg (by simp)) (hx seg (by simp))
     · exact ih (fun sg hsg => hl sg (by simp [hsg])) (fun sg hsg => hx sg (by simp [hsg])) y hy
 
+/-! ### the conditions on references, decidable -/
+
+def ingrRefOKB (env : Env) (tbl : Array (Ingredient (ScalableValue α))) (igr0 : Ingredient (ScalableValue α)) : Bool :=
+  igr0.modifiers.contains Modifiers.REF && !igr0.modifiers.contains Modifiers.NEW &&
+  !env.ext.has Gen.EXT_ADVANCED_UNITS && igr0.note.isNone &&
+  (match sameNameIdx env (tbl.toList.map (fun x => (x.name, x.modifiers))) igr0.name with
+   | some t =>
+     match tbl[t]? with
+     | some defn =>
+       match defn.relation with
+       | ⟨.definition rf b, tg⟩ =>
+         refConflict igr0.modifiers
+           ⟨defn.modifiers.bits &&& (Modifiers.HIDDEN ||| Modifiers.OPT ||| Modifiers.RECIPE)⟩ == 0 &&
+         !(defn.quantity.isSome && igr0.quantity.isSome && !b) &&
+         (match igr0.quantity, defn.quantity with
+          | some rq, some dq => rq.value.val.isText == dq.value.val.isText
+          | _, _ => true)
+       | _ => false
+     | none => false
+   | none => false)
+
+theorem rtdr_ingrRefOKB (env : Env) (tbl : Array (Ingredient (ScalableValue α))) (igr0 : Ingredient (ScalableValue α))
+    (h : ingrRefOKB env tbl igr0 = true) : IngrRefOKG env tbl igr0 := by
+  unfold ingrRefOKB at h
+  simp only [Bool.and_eq_true, Bool.not_eq_true', Option.isNone_iff_eq_none] at h
+  obtain ⟨⟨⟨⟨h1, h2⟩, h3⟩, h4⟩, h5⟩ := h
+  refine ⟨h1, h2, h3, h4, ?_⟩
+  split at h5
+  · rename_i t ht
+    split at h5
+    · rename_i defn hdefn
+      split at h5
+      · rename_i rf b tg hrel
+        simp only [Bool.and_eq_true, beq_iff_eq, Bool.not_eq_true'] at h5
+        refine ⟨t, defn, rf, b, tg, ht, hdefn, hrel, h5.1.1, h5.1.2, ?_⟩
+        intro rq dq hrq hdq
+        have := h5.2
+        rw [hrq, hdq] at this
+        simpa using this
+      · cases h5
+    · cases h5
+  · cases h5
+
+def ingrOKB (env : Env) (content : List Content) (nsec : Nat) (tbl : Array (Ingredient (ScalableValue α)))
+    (inter : Option InterData) (igr0 : Ingredient (ScalableValue α)) : Bool :=
+  match inter with
+  | some d =>
+    igr0.modifiers.contains Modifiers.REF &&
+    (igr0.modifiers.bits &&& (Modifiers.RECIPE ||| Modifiers.HIDDEN ||| Modifiers.NEW) == 0) &&
+    decide (0 ≤ d.val) &&
+    (match interRefTarget content nsec d with
+     | .ok _ => true
+     | .error _ => false)
+  | none => decide (plainMods igr0.modifiers) || ingrRefOKB env tbl igr0
+
+theorem rtdr_ingrOKB (env : Env) (content : List Content) (nsec : Nat) (tbl : Array (Ingredient (ScalableValue α)))
+    (inter : Option InterData) (igr0 : Ingredient (ScalableValue α)) (h : ingrOKB env content nsec tbl inter igr0 = true) :
+    IngrOKG env content nsec tbl inter igr0 := by
+  cases inter with
+  | some d =>
+    simp only [ingrOKB, Bool.and_eq_true, beq_iff_eq, decide_eq_true_eq] at h
+    obtain ⟨⟨⟨h1, h2⟩, h3⟩, h4⟩ := h
+    refine ⟨h1, h2, h3, ?_⟩
+    cases hr : interRefTarget content nsec d with
+    | ok rel => exact ⟨rel, rfl⟩
+    | error e => rw [hr] at h4; cases h4
+  | none =>
+    simp only [ingrOKB, Bool.or_eq_true, decide_eq_true_eq] at h
+    rcases h with h | h
+    · exact Or.inl h
+    · exact Or.inr (rtdr_ingrRefOKB env tbl igr0 h)
+
+def cwRefOKB (env : Env) (tbl : Array (Cookware (ScalableValue α))) (cw0 : Cookware (ScalableValue α)) : Bool :=
+  cw0.modifiers.contains Modifiers.REF && !cw0.modifiers.contains Modifiers.NEW && cw0.note.isNone &&
+  (match sameNameIdx env (tbl.toList.map (fun x => (x.name, x.modifiers))) cw0.name with
+   | some t =>
+     match tbl[t]? with
+     | some defn =>
+       match defn.relation with
+       | .definition rf b =>
+         refConflict cw0.modifiers ⟨defn.modifiers.bits &&& (Modifiers.HIDDEN ||| Modifiers.OPT)⟩ == 0 &&
+         !(defn.quantity.isSome && cw0.quantity.isSome && !b) &&
+         (match cw0.quantity, defn.quantity with
+          | some rq, some dq => rq.val.isText == dq.val.isText
+          | _, _ => true)
+       | _ => false
+     | none => false
+   | none => false)
+
+theorem rtdr_cwRefOKB (env : Env) (tbl : Array (Cookware (ScalableValue α))) (cw0 : Cookware (ScalableValue α))
+    (h : cwRefOKB env tbl cw0 = true) : CwRefOKG env tbl cw0 := by
+  unfold cwRefOKB at h
+  simp only [Bool.and_eq_true, Bool.not_eq_true', Option.isNone_iff_eq_none] at h
+  obtain ⟨⟨⟨h1, h2⟩, h4⟩, h5⟩ := h
+  refine ⟨h1, h2, h4, ?_⟩
+  split at h5
+  · rename_i t ht
+    split at h5
+    · rename_i defn hdefn
+      split at h5
+      · rename_i rf b hrel
+        simp only [Bool.and_eq_true, beq_iff_eq, Bool.not_eq_true'] at h5
+        refine ⟨t, defn, rf, b, ht, hdefn, hrel, h5.1.1, h5.1.2, ?_⟩
+        intro rq dq hrq hdq
+        have := h5.2
+        rw [hrq, hdq] at this
+        simpa using this
+      · cases h5
+    · cases h5
+  · cases h5
+
+def xOKAtB (env : Env) (content : List Content) (nsec : Nat) (T : XTbls α) : XItem α → Bool
+  | .ingr inter igr0 => ingrOKB env content nsec T.ing inter igr0
+  | .cw cw0 => decide (plainMods cw0.modifiers) || cwRefOKB env T.cw cw0
+  | _ => true
+
+theorem rtdr_xOKAtB (env : Env) (content : List Content) (nsec : Nat) (T : XTbls α) (it : XItem α)
+    (h : xOKAtB env content nsec T it = true) : xOKAt env content nsec T it := by
+  cases it with
+  | ingr inter igr0 => exact rtdr_ingrOKB env content nsec T.ing inter igr0 h
+  | cw cw0 =>
+    simp only [xOKAtB, Bool.or_eq_true, decide_eq_true_eq] at h
+    rcases h with h | h
+    · exact Or.inl h
+    · exact Or.inr (rtdr_cwRefOKB env T.cw cw0 h)
+  | text s => trivial
+  | timer t => trivial
+
+def xItemsOKB (env : Env) (content : List Content) (nsec : Nat) : XTbls α → List (XItem α) → Bool
+  | _, [] => true
+  | T, it :: r => xOKAtB env content nsec T it && xItemsOKB env content nsec (xPush env content nsec T it) r
+
+theorem rtdr_xItemsOKB (env : Env) (content : List Content) (nsec : Nat) : ∀ (st : List (XItem α)) (T : XTbls α),
+    xItemsOKB env content nsec T st = true → xItemsOK env content nsec T st := by
+  intro st
+  induction st with
+  | nil => intro _ _; trivial
+  | cons it r ih =>
+    intro T h
+    simp only [xItemsOKB, Bool.and_eq_true] at h
+    exact ⟨rtdr_xOKAtB env content nsec T it h.1, ih _ h.2⟩
+
+/-- the conditions `xOK` on the references of a described document as a computable check -/
+def xOKB (env : Env) : XTbls α → List Section → Section → Nat → List (XBlock α) → Bool
+  | _, _, _, _, [] => true
+  | T, secs, cur, num, .step st :: r =>
+    xItemsOKB env cur.content secs.length T st && !st.isEmpty &&
+    xOKB env (xStepTbls env cur.content secs.length T st) secs
+      ⟨cur.name, cur.content ++ [.step ⟨xItems env cur.content secs.length T st, num⟩]⟩ (num + 1) r
+  | T, secs, cur, _, .sect name :: r => xOKB env T (secs ++ (if cur.isEmpty then [] else [cur])) ⟨name, []⟩ 1 r
+  | T, secs, cur, num, .entry _ _ :: r => xOKB env T secs cur num r
+  | T, secs, cur, num, .para s :: r => xOKB env T secs ⟨cur.name, cur.content ++ xParaContent s⟩ num r
+
+theorem rtdr_xOKB (env : Env) : ∀ (blocks : List (XBlock α)) (T : XTbls α) (secs : List Section) (cur : Section)
+    (num : Nat), xOKB env T secs cur num blocks = true → xOK env T secs cur num blocks := by
+  intro blocks
+  induction blocks with
+  | nil => intro _ _ _ _ _; trivial
+  | cons b r ih =>
+    intro T secs cur num h
+    cases b with
+    | step st =>
+      simp only [xOKB, Bool.and_eq_true, Bool.not_eq_true', List.isEmpty_eq_false_iff] at h
+      exact ⟨rtdr_xItemsOKB env _ _ st T h.1.1, h.1.2, ih _ _ _ _ h.2⟩
+    | sect name => exact ih _ _ _ _ h
+    | entry k v => exact ih _ _ _ _ h
+    | para s => exact ih _ _ _ _ h
+
 /-! ### documents -/
 
 /-- an abstract block as the analysis reads it -/
